@@ -810,6 +810,211 @@ theorem C15_heap_reqid_isolated (n : Nat) (s : Store) (hc : Closed s) (tc : Addr
   have hsep := C15_heap_reqid_separated (n + 2) s hc hdr (hl hdr (by simp [headerOf, hct, hr])) rid s' h2 tc htc
   exact ⟨hsep, (C02_heap_tc_setters_frame n s' tc rid hsep ops).1⟩
 
+/-- what `copy.deepcopy(header)` builds, exactly -/
+private theorem deepCopyHeader_shape (s : Store) (hdr h' : Addr) (s' : Store)
+    (h : (deepCopyHeader hdr).run s = some (h', s')) :
+    ∃ ch pid psc cp cq, s[hdr]? = some ch ∧ ch.refs[0]? = some (some pid) ∧ ch.refs[1]? = some (some psc) ∧
+      s[pid]? = some cp ∧ (s ++ [cp])[psc]? = some cq ∧ h' = s.length + 2 ∧
+      s' = s ++ [cp, cq, { ch with refs := [some s.length, some (s.length + 1)] }] := by
+  unfold deepCopyHeader at h
+  obtain ⟨ch, s0, h0, h01⟩ := (run_bind_some _ _ _ _ _).mp h
+  obtain ⟨hch, e⟩ := (cellAt_run _ _ _ _).mp h0
+  subst s0
+  obtain ⟨pid, s1, h1, h2⟩ := (run_bind_some _ _ _ _ _).mp h01
+  obtain ⟨⟨ch1, hch1, hpid⟩, e1⟩ := (ref_run _ _ _ _ _).mp h1
+  subst s1
+  obtain ⟨psc, s2, h3, h4⟩ := (run_bind_some _ _ _ _ _).mp h2
+  obtain ⟨⟨ch2, hch2, hpsc⟩, e2⟩ := (ref_run _ _ _ _ _).mp h3
+  subst s2
+  have e3 : ch1 = ch := by rw [hch] at hch1; exact (Option.some.inj hch1).symm
+  have e4 : ch2 = ch := by rw [hch] at hch2; exact (Option.some.inj hch2).symm
+  subst e3 e4
+  obtain ⟨pid', s4, h7, h8⟩ := (run_bind_some _ _ _ _ _).mp h4
+  obtain ⟨cp, hcp, e5, e6⟩ := (copyCell_run _ _ _ _).mp h7
+  subst pid' s4
+  obtain ⟨psc', s5, h9, h10⟩ := (run_bind_some _ _ _ _ _).mp h8
+  obtain ⟨cq, hcq, e7, e8⟩ := (copyCell_run _ _ _ _).mp h9
+  subst psc' s5
+  obtain ⟨e9, e10⟩ := (new_run _ _ _ _).mp h10
+  subst h' s'
+  exact ⟨ch2, pid, psc, cp, cq, hch, hpid, hpsc, hcp, hcq, by simp, by simp⟩
+
+private theorem closed_set_same_refs {s : Store} (hc : Closed s) {a : Addr} {c c' : Cell} (h : s[a]? = some c)
+    (hr : c'.refs = c.refs) : Closed (s.set a c') := by
+  intro x hx r hrk
+  rw [List.length_set]
+  rcases List.mem_or_eq_of_mem_set hx with hm | rfl
+  · exact hc x hm r hrk
+  · exact hc c (List.mem_of_getElem? h) r (by simpa [Cell.kids, hr] using hrk)
+
+private theorem kidsAreLeaves_set_same_refs {s : Store} {a hdr : Addr} {c c' : Cell} (h : s[a]? = some c)
+    (hr : c'.refs = c.refs) (hl : KidsAreLeaves s hdr) : KidsAreLeaves (s.set a c') hdr := by
+  have key : ∀ x : Addr, ((s.set a c')[x]?.map Cell.kids) = (s[x]?.map Cell.kids) := by
+    intro x
+    by_cases hx : a = x
+    · subst hx
+      rw [List.getElem?_set_self (List.getElem?_eq_some_iff.mp h).1, h]
+      simp [Cell.kids, hr]
+    · rw [List.getElem?_set_ne hx]
+  intro r hrm
+  rw [key] at hrm
+  have := hl r hrm
+  simpa [Leaf, key] using this
+
+/-- the common core of `PusTc.to_space_packet()` / `PusTm.to_space_packet()` (both: read header and data length, assign
+    the own `crc16` cache, deep-copy the header, build the `SpacePacket`) -/
+private theorem toSpacePacket_shape (secLen : Nat) (p sp : Addr) (s s' : Store)
+    (h : (do
+        let hdr ← ref p 0
+        let n ← scalAt p 0
+        setScal p 1 1
+        let hdr' ← deepCopyHeader hdr
+        new ⟨.spacePacket, [some hdr'], [secLen, n + 2]⟩ : H Addr).run s = some (sp, s')) :
+    ∃ cp hdr n ch pid psc c1 c2, s[p]? = some cp ∧ cp.refs[0]? = some (some hdr) ∧ cp.scal[0]? = some n ∧
+      (s.set p { cp with scal := cp.scal.set 1 1 })[hdr]? = some ch ∧ ch.refs[0]? = some (some pid) ∧
+      ch.refs[1]? = some (some psc) ∧ (s.set p { cp with scal := cp.scal.set 1 1 })[pid]? = some c1 ∧
+      (s.set p { cp with scal := cp.scal.set 1 1 } ++ [c1])[psc]? = some c2 ∧ sp = s.length + 3 ∧
+      s' = s.set p { cp with scal := cp.scal.set 1 1 } ++
+        [c1, c2, { ch with refs := [some s.length, some (s.length + 1)] }, ⟨.spacePacket, [some (s.length + 2)], [secLen, n + 2]⟩] := by
+  obtain ⟨hdr, s1, h1, h2⟩ := (run_bind_some _ _ _ _ _).mp h
+  obtain ⟨⟨cp, hcp, hr⟩, e⟩ := (ref_run _ _ _ _ _).mp h1
+  subst s1
+  obtain ⟨n, s2, h3, h4⟩ := (run_bind_some _ _ _ _ _).mp h2
+  obtain ⟨⟨cp', hcp', hn⟩, e⟩ := (scalAt_run _ _ _ _ _).mp h3
+  subst s2
+  have e1 : cp' = cp := by rw [hcp] at hcp'; exact (Option.some.inj hcp').symm
+  subst e1
+  obtain ⟨u, s3, h5, h6⟩ := (run_bind_some _ _ _ _ _).mp h4
+  obtain ⟨cp'', hcp'', e⟩ := (setScal_run _ _ _ _ _ _).mp h5
+  have e2 : cp'' = cp' := by rw [hcp] at hcp''; exact (Option.some.inj hcp'').symm
+  subst e2 s3
+  obtain ⟨hdr', s4, h7, h8⟩ := (run_bind_some _ _ _ _ _).mp h6
+  obtain ⟨ch, pid, psc, c1, c2, hch, hpid, hpsc, hc1, hc2, e3, e4⟩ := deepCopyHeader_shape _ hdr hdr' s4 h7
+  subst hdr' s4
+  obtain ⟨e5, e6⟩ := (new_run _ _ _ _).mp h8
+  subst sp s'
+  refine ⟨cp'', hdr, n, ch, pid, psc, c1, c2, hcp, hr, hn, hch, hpid, hpsc, hc1, hc2, ?_, ?_⟩
+  · simp [List.length_set]
+  · simp [List.length_set]
+
+/-- what `to_space_packet()` does to the objects that existed, stated as it is (`calc_crc()` runs first): the ONLY
+    pre-existing cell that changes is the packet's own, and there only the `crc16` cache scalar (index 1: tag, header /
+    secondary-header references and the data length stay); every other pre-existing cell — header, `PacketId`,
+    `PacketSeqCtrl`, secondary header, every other object — is what it was; and every handle whose reachable cells exist and
+    do not include the packet shows the same view and reaches the same cells. Both for `PusTc` and `PusTm`. -/
+theorem C02_heap_to_space_packet_writes_only_crc (isTm : Bool) (p sp : Addr) (s s' : Store)
+    (h : (if isTm then tmToSpacePacket p else tcToSpacePacket p).run s = some (sp, s')) :
+    (∃ cp, s[p]? = some cp ∧ s'[p]? = some { cp with scal := cp.scal.set 1 1 }) ∧
+    (∀ a, a < s.length → a ≠ p → s'[a]? = s[a]?) ∧
+    (∀ n x, Valid n s x → p ∉ reachN n s x → viewN n s' x = viewN n s x ∧ reachN n s' x = reachN n s x) := by
+  have hsh : ∃ secLen, (do
+        let hdr ← ref p 0
+        let n ← scalAt p 0
+        setScal p 1 1
+        let hdr' ← deepCopyHeader hdr
+        new ⟨.spacePacket, [some hdr'], [secLen, n + 2]⟩ : H Addr).run s = some (sp, s') := by
+    cases isTm
+    · exact ⟨5, h⟩
+    · exact ⟨7, h⟩
+  obtain ⟨secLen, hsh⟩ := hsh
+  obtain ⟨cp, hdr, n, ch, pid, psc, c1, c2, hcp, _, _, _, _, _, _, _, _, rfl⟩ := toSpacePacket_shape secLen p sp s s' hsh
+  have hp : p < s.length := (List.getElem?_eq_some_iff.mp hcp).1
+  refine ⟨⟨cp, hcp, ?_⟩, ?_, ?_⟩
+  · rw [List.getElem?_append_left (by simpa using hp), List.getElem?_set_self hp]
+  · intro a ha hne
+    rw [List.getElem?_append_left (by simpa using ha), List.getElem?_set_ne (fun e => hne e.symm)]
+  · intro m x hv hx
+    have st : Steps [p] s (s.set p { cp with scal := cp.scal.set 1 1 } ++
+        [c1, c2, { ch with refs := [some s.length, some (s.length + 1)] }, ⟨.spacePacket, [some (s.length + 2)], [secLen, n + 2]⟩]) :=
+      .alloc _ (.write p _ (.refl s) (by simp))
+    obtain ⟨hv', hr', _⟩ := C11_heap_steps_frame st m x hv (by simpa using hx)
+    exact ⟨hv', hr'⟩
+
+private theorem toSpacePacket_separated (secLen : Nat) (p sp : Addr) (s s' : Store) (hc : Closed s)
+    (hl : ∀ hdr, headerOf s p = some hdr → KidsAreLeaves s hdr)
+    (h : (do
+        let hdr ← ref p 0
+        let n ← scalAt p 0
+        setScal p 1 1
+        let hdr' ← deepCopyHeader hdr
+        new ⟨.spacePacket, [some hdr'], [secLen, n + 2]⟩ : H Addr).run s = some (sp, s')) :
+    ∀ n b, b < s.length → Disjoint (reachN n s' sp) (reachN n s' b) := by
+  obtain ⟨cp, hdr, m, ch, pid, psc, c1, c2, hcp, hr, _, hch, hpid, hpsc, hc1, hc2, rfl, rfl⟩ := toSpacePacket_shape secLen p sp s s' h
+  intro n b hb
+  have hc1s := closed_set_same_refs hc hcp (c' := { cp with scal := cp.scal.set 1 1 }) rfl
+  have hl1 := kidsAreLeaves_set_same_refs hcp (c' := { cp with scal := cp.scal.set 1 1 }) rfl (hl hdr (by simp [headerOf, hcp, hr]))
+  have hql : psc < (s.set p { cp with scal := cp.scal.set 1 1 }).length := closed_kid_lt hc1s hch (kid_of_ref hpsc)
+  rw [List.getElem?_append_left hql] at hc2
+  have hk1 : c1.kids = [] := leaf_kids (hl1 pid (by simp [hch, kid_of_ref hpid])) hc1
+  have hk2 : c2.kids = [] := leaf_kids (hl1 psc (by simp [hch, kid_of_ref hpsc])) hc2
+  have hlen : (s.set p { cp with scal := cp.scal.set 1 1 }).length = s.length := List.length_set
+  have := C11_heap_fresh_disjoint n (s.set p { cp with scal := cp.scal.set 1 1 })
+    [c1, c2, { ch with refs := [some s.length, some (s.length + 1)] }, ⟨.spacePacket, [some (s.length + 2)], [secLen, m + 2]⟩]
+    (s.length + 3) b hc1s (by rw [hlen]; exact hb)
+    (by
+      intro c hcm r hrk
+      rw [hlen]
+      simp only [List.mem_cons, List.not_mem_nil, or_false] at hcm
+      rcases hcm with rfl | rfl | rfl | rfl
+      · simp [hk1] at hrk
+      · simp [hk2] at hrk
+      · simp [Cell.kids] at hrk; rcases hrk with rfl | rfl <;> simp
+      · simp [Cell.kids] at hrk; subst hrk; simp)
+    (by rw [hlen]; simp)
+  exact this
+
+/-- C02, all histories, every depth: the generic space-packet view of a telecommand (`to_space_packet()`) has no cell in
+    common with any object that existed before — in particular not with the telecommand — and no sequence of setter calls
+    on the telecommand afterwards changes anything readable through it -/
+theorem C02_heap_space_packet_isolated (n : Nat) (s : Store) (hc : Closed s) (tc : Addr) (htc : tc < s.length)
+    (hl : ∀ hdr, headerOf s tc = some hdr → KidsAreLeaves s hdr)
+    (sp : Addr) (s' : Store) (h : (tcToSpacePacket tc).run s = some (sp, s')) (ops : List TcOp) :
+    (∀ m b, b < s.length → Disjoint (reachN m s' sp) (reachN m s' b)) ∧
+    viewN (n + 2) (runOps (tcSet tc) ops s') sp = viewN (n + 2) s' sp := by
+  have hsep := toSpacePacket_separated 5 tc sp s s' hc hl h
+  exact ⟨hsep, (C02_heap_tc_setters_frame n s' tc sp (hsep (n + 2) tc htc) ops).1⟩
+
+/-- the same for a telemetry packet and its setters (`apid`, `seq_flags`, `tm_data`) -/
+theorem C02_heap_tm_space_packet_isolated (n : Nat) (s : Store) (hc : Closed s) (tm : Addr) (htm : tm < s.length)
+    (hl : ∀ hdr, headerOf s tm = some hdr → KidsAreLeaves s hdr)
+    (sp : Addr) (s' : Store) (h : (tmToSpacePacket tm).run s = some (sp, s')) (ops : List TmOp) :
+    (∀ m b, b < s.length → Disjoint (reachN m s' sp) (reachN m s' b)) ∧
+    viewN (n + 2) (runOps (tmSet tm) ops s') sp = viewN (n + 2) s' sp := by
+  have hsep := toSpacePacket_separated 7 tm sp s s' hc hl h
+  exact ⟨hsep, (C02_heap_tm_setters_frame n s' tm sp (hsep (n + 2) tm htm) ops).1⟩
+
+/-- the VALUE half: the space packet's header is a cell with the tag and scalars (version, data length) of the packet's
+    header at the time of the call, and its `PacketId` / `PacketSeqCtrl` are cells EQUAL to the header's — provided the
+    packet is not reachable from its own header (no cycle), so that the `crc16` assignment does not touch those cells -/
+theorem C02_heap_space_packet_snapshot_values (isTm : Bool) (p sp : Addr) (s s' : Store) (hc : Closed s)
+    (h : (if isTm then tmToSpacePacket p else tcToSpacePacket p).run s = some (sp, s'))
+    (hacyc : ∀ hdr, headerOf s p = some hdr → p ∉ reachN 1 s hdr) :
+    ∃ hdr ch pid psc h' a b, headerOf s p = some hdr ∧ s[hdr]? = some ch ∧ ch.refs[0]? = some (some pid) ∧
+      ch.refs[1]? = some (some psc) ∧ (s'[sp]?.map Cell.refs) = some [some h'] ∧
+      s'[h']? = some { ch with refs := [some a, some b] } ∧ s'[a]? = s[pid]? ∧ s'[b]? = s[psc]? ∧ s'[a]?.isSome ∧ s'[b]?.isSome := by
+  have hsh : ∃ secLen, (do
+        let hdr ← ref p 0
+        let n ← scalAt p 0
+        setScal p 1 1
+        let hdr' ← deepCopyHeader hdr
+        new ⟨.spacePacket, [some hdr'], [secLen, n + 2]⟩ : H Addr).run s = some (sp, s') := by
+    cases isTm
+    · exact ⟨5, h⟩
+    · exact ⟨7, h⟩
+  obtain ⟨secLen, hsh⟩ := hsh
+  obtain ⟨cp, hdr, n, ch, pid, psc, c1, c2, hcp, hr, _, hch, hpid, hpsc, hc1, hc2, rfl, rfl⟩ := toSpacePacket_shape secLen p sp s s' hsh
+  have hho : headerOf s p = some hdr := by simp [headerOf, hcp, hr]
+  have hnot := hacyc hdr hho
+  have hne1 : p ≠ hdr := fun e => hnot (by rw [e]; exact mem_reachN_self _ _ _)
+  rw [List.getElem?_set_ne hne1] at hch
+  have hne2 : p ≠ pid := fun e => hnot (by rw [e]; exact mem_reachN_step hch hpid (mem_reachN_self _ _ _))
+  have hne3 : p ≠ psc := fun e => hnot (by rw [e]; exact mem_reachN_step hch hpsc (mem_reachN_self _ _ _))
+  rw [List.getElem?_set_ne hne2] at hc1
+  have hpscl : psc < s.length := closed_kid_lt hc hch (kid_of_ref hpsc)
+  rw [List.getElem?_append_left (by rw [List.length_set]; exact hpscl), List.getElem?_set_ne hne3] at hc2
+  refine ⟨hdr, ch, pid, psc, s.length + 2, s.length, s.length + 1, hho, hch, hpid, hpsc, ?_, ?_, ?_, ?_, ?_, ?_⟩ <;>
+    simp [List.getElem?_append_right, List.length_set, hc1, hc2]
+
 private theorem new_run_eq (c : Cell) (s : Store) : (new c).run s = some (s.length, s ++ [c]) := rfl
 
 private theorem closed_append {s t : Store} (hc : Closed s) (ht : ∀ c ∈ t, ∀ r ∈ c.kids, r < s.length + t.length) :
@@ -856,16 +1061,16 @@ theorem C11_heap_factory_results_separated (s : Store) (hc : Closed s) (which : 
 
 /-! ## (d) where the code SHARES — stated as it is -/
 
-/-- the exact alias relation after a CFDP PDU constructor (all eight kinds): the PDU's configuration is a NEW cell (not the
-    caller's), it holds the caller's three byte-field objects (the same addresses: `copy.copy` is shallow), its scalars are
-    the caller's except the direction of the kind, the new header refers to it, and the caller's cell is unchanged -/
-theorem C11_heap_conf_bytefields_shared (k : PduKind) (conf : Addr) (objs : List (Option Addr)) (scal : List Nat) (af : Bool)
+/-- what the common body of the eight CFDP PDU constructors builds, exactly -/
+private theorem newPdu_shape (k : PduKind) (conf : Addr) (objs : List (Option Addr)) (scal : List Nat) (af : Bool)
     (fl dl : Nat) (s : Store) (cc : Cell) (hcc : s[conf]? = some cc) (pdu : Addr) (s' : Store)
     (h : (newPdu k conf objs scal af fl dl).run s = some (pdu, s')) :
-    s'[s.length]? = some { cc with scal := cc.scal.set 3 (k.dir af) } ∧ s.length ≠ conf ∧ s'[conf]? = some cc ∧
-    (∃ hs, s'[s.length + 1]? = some ⟨.pduHeader, [some s.length], hs⟩) := by
-  have hlt : conf < s.length := (List.getElem?_eq_some_iff.mp hcc).1
-  have hne : s.length ≠ conf := fun e => by rw [e] at hlt; exact Nat.lt_irrefl _ hlt
+    (k = .fileData ∧ pdu = s.length + 2 ∧
+      s' = s ++ [{ cc with scal := cc.scal.set 3 (k.dir af) }, ⟨.pduHeader, [some s.length], [1, fl, dl]⟩,
+                 ⟨k.tag, some (s.length + 1) :: objs, scal⟩]) ∨
+    (k ≠ .fileData ∧ pdu = s.length + 3 ∧
+      s' = s ++ [{ cc with scal := cc.scal.set 3 (k.dir af) }, ⟨.pduHeader, [some s.length], [0, 0, scal.length + 1]⟩,
+                 ⟨.directive, [some (s.length + 1)], [k.code]⟩, ⟨k.tag, some (s.length + 2) :: objs, scal⟩]) := by
   unfold newPdu at h
   obtain ⟨conf', s1, h1, h2⟩ := (run_bind_some _ _ _ _ _).mp h
   unfold copyConfWithDir at h1
@@ -879,10 +1084,262 @@ theorem C11_heap_conf_bytefields_shared (k : PduKind) (conf : Addr) (objs : List
   cases k <;>
     simp [newDirective, newPduHeader, StateT.run_bind, new_run_eq] at h2 <;>
     obtain ⟨rfl, rfl⟩ := h2 <;>
-    refine ⟨?_, hne, ?_, ?_⟩ <;>
     first
-      | (rw [List.getElem?_append_left hlt]; exact hc0)
-      | simp [List.getElem?_append_right]
+      | exact Or.inl ⟨rfl, rfl, rfl⟩
+      | exact Or.inr ⟨(by intro e; cases e), rfl, rfl⟩
+
+/-- from the PDU object to the configuration it reads: `refs` index chain of `pdu.pdu_header.pdu_conf` -/
+def confPath : PduKind → List Nat
+  | .fileData => [0, 0]
+  | _ => [0, 0, 0]
+
+private theorem reach_leaf {s : Store} {r : Addr} (hl : Leaf s r) : ∀ m x, x ∈ reachN m s r → x = r := by
+  intro m x hx
+  cases m with
+  | zero => simpa [reachN] using hx
+  | succ m =>
+    simp only [reachN, List.mem_cons] at hx
+    rcases hx with h | h
+    · exact h
+    · cases hc : s[r]? with
+      | none => simp [hc] at h
+      | some c => simp [hc, leaf_kids hl hc] at h
+
+/-- everything reachable from a fresh root is fresh, or reachable (in the old store) from an OLD cell a fresh cell refers to -/
+private theorem reach_fresh_or_old (n : Nat) (s t : Store) (hc : Closed s) : ∀ a x, s.length ≤ a → x ∈ reachN n (s ++ t) a →
+    s.length ≤ x ∨ ∃ c ∈ t, ∃ r ∈ c.kids, r < s.length ∧ ∃ m, x ∈ reachN m s r := by
+  induction n with
+  | zero => intro a x ha hx; simp [reachN] at hx; subst hx; exact Or.inl ha
+  | succ n ih =>
+    intro a x ha hx
+    simp only [reachN, List.mem_cons] at hx
+    rcases hx with rfl | hx
+    · exact Or.inl ha
+    · cases hcell : (s ++ t)[a]? with
+      | none => simp [hcell] at hx
+      | some cell =>
+        simp only [hcell, List.mem_flatMap] at hx
+        obtain ⟨r, hr, hx⟩ := hx
+        have hmem : cell ∈ t := by
+          rw [List.getElem?_append_right ha] at hcell
+          exact List.mem_of_getElem? hcell
+        by_cases hrl : r < s.length
+        · rw [C11_heap_alloc_reach n s t r hc hrl] at hx
+          exact Or.inr ⟨cell, hmem, r, hr, hrl, n, hx⟩
+        · exact ih r x (Nat.le_of_not_lt hrl) hx
+
+/-- the caller's configuration as constructors expect it: its object attributes (the three byte fields) hold no objects and
+    are not the configuration itself -/
+def ConfFieldsAreLeaves (s : Store) (conf : Addr) : Prop :=
+  ∀ r ∈ (s[conf]?.map Cell.kids).getD [], Leaf s r ∧ r ≠ conf
+
+instance (s : Store) (conf : Addr) : Decidable (ConfFieldsAreLeaves s conf) := by unfold ConfFieldsAreLeaves; infer_instance
+
+/-- the caller's parameter objects do not lead back to the caller's configuration -/
+def ObjsAvoid (s : Store) (objs : List (Option Addr)) (conf : Addr) : Prop :=
+  ∀ o, some o ∈ objs → ∀ m, conf ∉ reachN m s o
+
+/-- THE alias relation after a CFDP PDU constructor, about the RETURNED PDU (all eight kinds, every closed store):
+    * following `pdu_header`, `pdu_conf` (the access path of the tie) from the returned PDU reaches a NEW cell (`s.length`),
+      not the caller's configuration;
+    * that cell holds the caller's object attributes — the SAME three byte-field addresses (`copy.copy` is shallow) — and the
+      caller's scalars except the direction of the kind; the caller's cell is unchanged;
+    * the caller's configuration cell is NOT reachable from the returned PDU, to any depth (so nothing the caller later
+      assigns to scalar attributes of its configuration is read through the PDU: `C11_heap_conf_scalar_write_invisible`);
+    * every byte field of the caller's configuration IS reachable from the returned PDU (through the index chain
+      `confPath ++ [i]`): what the caller later assigns to `.value` of such a field is read through the PDU;
+    * the PDU object's further object attributes are exactly the caller's objects `objs` (parameter object, list, TLV). -/
+theorem C11_heap_conf_bytefields_shared (k : PduKind) (conf : Addr) (objs : List (Option Addr)) (scal : List Nat) (af : Bool)
+    (fl dl : Nat) (s : Store) (hc : Closed s) (cc : Cell) (hcc : s[conf]? = some cc) (hl : ConfFieldsAreLeaves s conf)
+    (ho : ObjsAvoid s objs conf) (pdu : Addr) (s' : Store)
+    (h : (newPdu k conf objs scal af fl dl).run s = some (pdu, s')) :
+    followAttrs s' pdu ["pdu_header", "pdu_conf"] = some s.length ∧ followIdx s' pdu (confPath k) = some s.length ∧
+    s.length ≠ conf ∧ s'[s.length]? = some { cc with scal := cc.scal.set 3 (k.dir af) } ∧ s'[conf]? = some cc ∧
+    (∀ n, conf ∉ reachN n s' pdu) ∧
+    (∀ i r, cc.refs[i]? = some (some r) → followIdx s' pdu ((confPath k) ++ [i]) = some r) ∧
+    (∃ b, s'[pdu]? = some ⟨k.tag, some b :: objs, scal⟩) := by
+  have hlt : conf < s.length := (List.getElem?_eq_some_iff.mp hcc).1
+  have hne : s.length ≠ conf := fun e => by rw [e] at hlt; exact Nat.lt_irrefl _ hlt
+  have hnotreach : ∀ t a, s.length ≤ a →
+      (∀ c ∈ t, ∀ r ∈ c.kids, r < s.length → r ∈ cc.kids ∨ some r ∈ objs) → ∀ n, conf ∉ reachN n (s ++ t) a := by
+    intro t a ha hk n hx
+    rcases reach_fresh_or_old n s t hc a conf ha hx with hge | ⟨c, hcm, r, hr, hrl, m, hm⟩
+    · exact Nat.lt_irrefl _ (Nat.lt_of_lt_of_le hlt hge)
+    · rcases hk c hcm r hr hrl with hk1 | hk2
+      · have := hl r (by simpa [hcc] using hk1)
+        exact this.2 (reach_leaf this.1 m conf hm).symm
+      · exact ho r hk2 m hm
+  have hrefs : ∀ (i : Nat) (r : Addr), cc.refs[i]? = some (some r) → r < s.length :=
+    fun i r hr => closed_kid_lt hc hcc (kid_of_ref hr)
+  rcases newPdu_shape k conf objs scal af fl dl s cc hcc pdu s' h with ⟨rfl, rfl, rfl⟩ | ⟨hk, rfl, rfl⟩
+  · refine ⟨?_, ?_, hne, ?_, ?_, ?_, ?_, ⟨s.length + 1, ?_⟩⟩
+    · simp [followAttrs, followIdx, attr, PduKind.tag, List.getElem?_append_right]
+    · simp [confPath, followIdx, List.getElem?_append_right]
+    · simp [List.getElem?_append_right]
+    · rw [List.getElem?_append_left hlt]; exact hcc
+    · apply hnotreach _ _ (by omega)
+      intro c hcm r hr hrl
+      simp only [List.mem_cons, List.not_mem_nil, or_false] at hcm
+      rcases hcm with rfl | rfl | rfl
+      · left; simpa [Cell.kids] using hr
+      · simp [Cell.kids] at hr; subst hr; exact absurd hrl (Nat.lt_irrefl _)
+      · simp [Cell.kids] at hr
+        rcases hr with rfl | hr
+        · exact absurd hrl (by simp)
+        · right; exact hr
+    · intro i r hr
+      simp [confPath, followIdx, List.getElem?_append_right, hr]
+    · simp [List.getElem?_append_right]
+  · have hattr : attr k.tag "pdu_header" = some [0, 0] := by cases k <;> first | rfl | exact absurd rfl hk
+    have hcp : confPath k = [0, 0, 0] := by cases k <;> first | rfl | exact absurd rfl hk
+    have hattr2 : attr .pduHeader "pdu_conf" = some [0] := rfl
+    refine ⟨?_, ?_, hne, ?_, ?_, ?_, ?_, ⟨s.length + 2, ?_⟩⟩
+    · simp [followAttrs, followIdx, hattr, hattr2, List.getElem?_append_right]
+    · simp [hcp, followIdx, List.getElem?_append_right]
+    · simp [List.getElem?_append_right]
+    · rw [List.getElem?_append_left hlt]; exact hcc
+    · apply hnotreach _ _ (by omega)
+      intro c hcm r hr hrl
+      simp only [List.mem_cons, List.not_mem_nil, or_false] at hcm
+      rcases hcm with rfl | rfl | rfl | rfl
+      · left; simpa [Cell.kids] using hr
+      · simp [Cell.kids] at hr; subst hr; exact absurd hrl (Nat.lt_irrefl _)
+      · simp [Cell.kids] at hr; subst hr; exact absurd hrl (by simp)
+      · simp [Cell.kids] at hr
+        rcases hr with rfl | hr
+        · exact absurd hrl (by simp)
+        · right; exact hr
+    · intro i r hr
+      simp [hcp, followIdx, List.getElem?_append_right, hr]
+    · simp [List.getElem?_append_right]
+
+/-- GENERAL (every closed store, all eight kinds, every scalar attribute, every value, every depth): an assignment to a SCALAR
+    attribute of the caller's configuration (`conf.crc_flag = …`, `file_flag`, `trans_mode`, `direction`, `seg_ctrl`) after the
+    constructor changes nothing that is read through the PDU, nor what the PDU reaches — the PDU reads its own copy -/
+theorem C11_heap_conf_scalar_write_invisible (k : PduKind) (conf : Addr) (objs : List (Option Addr)) (scal : List Nat) (af : Bool)
+    (fl dl : Nat) (s : Store) (hc : Closed s) (cc : Cell) (hcc : s[conf]? = some cc) (hl : ConfFieldsAreLeaves s conf)
+    (ho : ObjsAvoid s objs conf) (pdu : Addr) (s' : Store) (h : (newPdu k conf objs scal af fl dl).run s = some (pdu, s'))
+    (i v : Nat) (u : Unit) (s'' : Store) (hw : (confSetScalar conf i v).run s' = some (u, s'')) (n : Nat) :
+    viewN n s'' pdu = viewN n s' pdu ∧ reachN n s'' pdu = reachN n s' pdu := by
+  obtain ⟨_, _, _, _, _, hnr, _, _⟩ := C11_heap_conf_bytefields_shared k conf objs scal af fl dl s hc cc hcc hl ho pdu s' h
+  obtain ⟨c, _, rfl⟩ := (setScal_run _ _ _ _ _ _).mp hw
+  exact ⟨C11_heap_frame n s' pdu conf _ (hnr n), C11_heap_frame_reach n s' pdu conf _ (hnr n)⟩
+
+private theorem followIdx_set_same_refs (s : Store) (a : Addr) (c c' : Cell) (hc : s[a]? = some c) (hr : c'.refs = c.refs) :
+    ∀ (path : List Nat) (x : Addr), followIdx (s.set a c') x path = followIdx s x path := by
+  intro path
+  induction path with
+  | nil => intro x; rfl
+  | cons i rest ih =>
+    intro x
+    simp only [followIdx]
+    by_cases hx : a = x
+    · subst hx
+      rw [List.getElem?_set_self (List.getElem?_eq_some_iff.mp hc).1, hc]
+      simp only [hr]
+      cases c.refs[i]? with
+      | none => rfl
+      | some o => cases o with
+        | none => rfl
+        | some r => exact ih r
+    · rw [List.getElem?_set_ne hx]
+      cases s[x]? with
+      | none => rfl
+      | some cx =>
+        simp only
+        cases cx.refs[i]? with
+        | none => rfl
+        | some o => cases o with
+          | none => rfl
+          | some r => exact ih r
+
+/-- GENERAL, truthful (every closed store, all eight kinds, each of the three byte fields, every value): `conf.<field>.value = v`
+    on the caller's configuration after the constructor writes THE VERY CELL the PDU reads at
+    `pdu_header.pdu_conf.<field>` — before and after the assignment that path from the returned PDU ends at the written cell,
+    which now holds `v` (the byte-field objects are shared: `copy.copy` is shallow) -/
+theorem C11_heap_conf_bytefield_write_visible (k : PduKind) (conf : Addr) (objs : List (Option Addr)) (scal : List Nat) (af : Bool)
+    (fl dl : Nat) (s : Store) (hc : Closed s) (cc : Cell) (hcc : s[conf]? = some cc) (hl : ConfFieldsAreLeaves s conf)
+    (ho : ObjsAvoid s objs conf) (pdu : Addr) (s' : Store) (h : (newPdu k conf objs scal af fl dl).run s = some (pdu, s'))
+    (i v : Nat) (u : Unit) (s'' : Store) (hw : (confSetFieldValue conf i v).run s' = some (u, s'')) :
+    ∃ r cr, cc.refs[i]? = some (some r) ∧ s'[r]? = some cr ∧ followIdx s' pdu (confPath k ++ [i]) = some r ∧
+      followIdx s'' pdu (confPath k ++ [i]) = some r ∧ s''[r]? = some { cr with scal := cr.scal.set 1 v } := by
+  obtain ⟨_, _, _, _, hconf, _, hfields, _⟩ := C11_heap_conf_bytefields_shared k conf objs scal af fl dl s hc cc hcc hl ho pdu s' h
+  unfold confSetFieldValue at hw
+  obtain ⟨r, s1, h1, h2⟩ := (run_bind_some _ _ _ _ _).mp hw
+  obtain ⟨⟨c0, hc0, hr⟩, e⟩ := (ref_run _ _ _ _ _).mp h1
+  subst s1
+  have e0 : c0 = cc := by rw [hconf] at hc0; exact (Option.some.inj hc0).symm
+  subst e0
+  obtain ⟨cr, hcr, rfl⟩ := (setScal_run _ _ _ _ _ _).mp h2
+  refine ⟨r, cr, hr, hcr, hfields i r hr, ?_, ?_⟩
+  · rw [followIdx_set_same_refs s' r cr { cr with scal := cr.scal.set 1 v } hcr rfl]; exact hfields i r hr
+  · exact List.getElem?_set_self (List.getElem?_eq_some_iff.mp hcr).1
+
+private theorem touchRef_run (a : Addr) (i : Nat) (s : Store) (u : Unit) (s' : Store) (h : (touchRef a i).run s = some (u, s')) :
+    s' = s := by
+  obtain ⟨t, rfl⟩ := (alloc_touchRef a i).ext s u s' h
+  unfold touchRef at h
+  obtain ⟨c, s1, h1, h2⟩ := (run_bind_some _ _ _ _ _).mp h
+  obtain ⟨hc, e⟩ := (cellAt_run _ _ _ _).mp h1
+  subst s1
+  split at h2
+  · have := ((put_run _ _ _ _ _).mp h2).2
+    have hl := congrArg List.length this
+    simp at hl
+    simp [hl]
+  · have := ((pure_run _ _ _ _).mp h2).2
+    have hl := congrArg List.length this
+    simp at hl
+    simp [hl]
+
+private theorem refOpt_run_store (a : Addr) (i : Nat) (s : Store) (o : Option Addr) (s' : Store)
+    (h : (refOpt a i).run s = some (o, s')) : s' = s := by
+  unfold refOpt at h
+  obtain ⟨c, s1, h1, h2⟩ := (run_bind_some _ _ _ _ _).mp h
+  obtain ⟨_, e⟩ := (cellAt_run _ _ _ _).mp h1
+  subst s1
+  split at h2
+  · exact ((pure_run _ _ _ _).mp h2).2
+  · exact ((fail_run _ _ _).mp h2).elim
+
+private theorem segMetaLen_run_store (o : Option Addr) (s : Store) (n : Nat) (s' : Store)
+    (h : (segMetaLen o).run s = some (n, s')) : s' = s := by
+  cases o with
+  | none => exact ((pure_run _ _ _ _).mp h).2
+  | some m =>
+    simp only [segMetaLen] at h
+    obtain ⟨l, s1, h1, h2⟩ := (run_bind_some _ _ _ _ _).mp h
+    obtain ⟨_, e⟩ := (scalAt_run _ _ _ _ _).mp h1
+    subst s1
+    exact ((pure_run _ _ _ _).mp h2).2
+
+/-- `FinishedPdu(conf, params)` is the common constructor body on `[params]` (its re-assignments into `params` are identities),
+    `FileDataPdu(conf, params)` likewise: every theorem about `newPdu` applies to them -/
+theorem C11_heap_finished_filedata_ctor_is_pdu_ctor (conf params pdu : Addr) (s s' : Store) :
+    ((newFinishedPdu conf params).run s = some (pdu, s') → (newPdu .finished conf [some params] []).run s = some (pdu, s')) ∧
+    ((newFileDataPdu conf params).run s = some (pdu, s') →
+      ∃ fl dl, (newPdu .fileData conf [some params] [] false fl dl).run s = some (pdu, s')) := by
+  constructor
+  · intro h
+    unfold newFinishedPdu at h
+    obtain ⟨p, s1, h1, h2⟩ := (run_bind_some _ _ _ _ _).mp h
+    obtain ⟨u1, s2, h3, h4⟩ := (run_bind_some _ _ _ _ _).mp h2
+    obtain ⟨u2, s3, h5, h6⟩ := (run_bind_some _ _ _ _ _).mp h4
+    have e1 := touchRef_run _ _ _ _ _ h3
+    have e2 := touchRef_run _ _ _ _ _ h5
+    obtain ⟨e3, e4⟩ := (pure_run _ _ _ _).mp h6
+    subst e1 e2 e3 e4
+    exact h1
+  · intro h
+    unfold newFileDataPdu at h
+    obtain ⟨sm, s1, h1, h2⟩ := (run_bind_some _ _ _ _ _).mp h
+    have e1 := refOpt_run_store _ _ _ _ _ h1
+    obtain ⟨n, s2, h3, h4⟩ := (run_bind_some _ _ _ _ _).mp h2
+    obtain ⟨_, e2⟩ := (scalAt_run _ _ _ _ _).mp h3
+    obtain ⟨ml, s3, h5, h6⟩ := (run_bind_some _ _ _ _ _).mp h4
+    have e3 := segMetaLen_run_store _ _ _ _ h5
+    subst e1 e2 e3
+    exact ⟨_, _, h6⟩
 
 /-- the call does not raise and its result and the store afterwards satisfy `P` -/
 def Holds {α : Type} (r : Option (α × Store)) (P : α → Store → Prop) : Prop := ∃ a s', r = some (a, s') ∧ P a s'
@@ -946,7 +1403,7 @@ example : Closed exConfStore ∧ ((newNakPdu 3 0 100 none).run exConfStore).isSo
 
 /-- TRUTHFUL consequence of the shallow copy: assigning `.value` of a byte field the caller's configuration holds DOES
     change what is read through a PDU built from it earlier (the byte-field object is shared) … -/
-theorem C11_heap_conf_bytefield_write_visible :
+example :
     Holds ((newKeepAlivePdu 3 77).run exConfStore) fun pdu s' =>
       Holds ((confSetFieldValue 3 0 99).run s') fun _ s'' => view s'' pdu ≠ view s' pdu := by decide
 
@@ -968,7 +1425,7 @@ theorem C02_heap_tc_from_sp_header_writes_caller_header :
     `trans_mode`, `direction`, `seg_ctrl`) after the constructor does NOT change what is read through the PDU — the PDU
     reads its own copy (general reason: `C11_heap_frame` + `C11_heap_conf_bytefields_shared`, the caller's cell is not
     reachable from the PDU; here evaluated for all eight kinds, every scalar attribute and several values on `exConfStore`) -/
-theorem C11_heap_conf_scalar_write_invisible :
+example :
     ∀ k ∈ [PduKind.ack, .prompt, .keepAlive, .nak, .eof, .finished, .metadata, .fileData],
       Holds ((newPdu k 3 [] [7]).run exConfStore) fun pdu s' =>
         3 ∉ reach s' pdu ∧
